@@ -111,7 +111,8 @@ impl Prop for C14 {
                 _ => rng.below(70_000) as u32,
             }
         };
-        let new_v = match rng.usize(6) {
+        let new_v = match rng.usize(7) {
+            6 => *rng.pick(&[0u32, 0, 1, 10]),
             0 => 65_000 + rng.below(600) as u32,
             1 => rng.below(70_000) as u32,
             2 => *rng.pick(&nums) as u32,
